@@ -9,6 +9,11 @@ CHECKS = {
    text="Exhaustive TLC check of the implementation-shaped specification of p2p.Conn at small constants (Fifo, Faithful, BufOwnership, Window, Stats, CloseDelivers, liveness), bound to the code in both directions: generated behaviours (all flush placements/fragmentations around the 64Ki/1Mi boundaries) are replayed on the real Conn and compared after every call, and traces recorded from concurrent free-running sessions must be behaviours of the abstract stream specification (verdict) and of the implementation-shaped one (drift).",
    note="Trusts TLC, the harness transport (unbounded in-memory pipe), and that transport writes consume the whole buffer; writer error paths are not part of the property.",
    ref="5 C11"),
+ "C19": dict(
+   technique="TLA+ spec Mesh.tla model-checked by TLC (all interleavings of main threads and accept goroutines, safety + termination under fairness) + TLC behaviours replayed step by step on real p2p.Create/Join/Connect over loopback TCP through blocking verif gates + go/at traces of a seeded random gate scheduler validated by TLC (MeshTrace.tla) + free-running formations",
+   text="Exhaustive TLC check of the mesh formation protocol as coded (acceptConn as two steps) for 3-5 parties, bound to the code in both directions: every generated interleaving is forced on the real code through gates at the scheduling points and the real Peers/Conns are inspected when Connect returns and by a token exchange on every (p,q,k); recorded random schedules must be behaviours of the spec with Complete/Paired/PeerListComplete/NoError evaluated at every step.",
+   note="Trusts TLC, the gate placement (11 add-only calls in p2p/network.go under tag verif), loopback TCP and FIFO accept queues.",
+   ref="5 C19"),
 }
 
 NOT_APPLICABLE = {}
